@@ -5,6 +5,7 @@ and Consequent.modify events of one block activation and an offline checker comp
 degrees and the appended fuzzy terms with a scalar selection model."""
 from __future__ import annotations
 
+import copy
 import itertools
 import math
 import operator
@@ -12,7 +13,7 @@ import operator
 import numpy as np
 
 from ..core import import_library
-from ..env import Held
+from ..env import ENVIRONMENTS, Held, excusable, hostile
 from ..probe import Probe, Reach
 
 WORKERS = {"quick": 1, "thorough": 16}
@@ -350,7 +351,8 @@ def drive(ctx, fl, e, vals, acts, weights, instances=None, form="float", route="
             for k, v in enumerate(vals):
                 e.input_variables[k].value = {"float": float, "0-d array": np.array, "array of one": lambda x: np.array([x]), "1x1 array": lambda x: np.array([[x]])}[form](v)
         try:
-            e.process()
+            with hostile(fl, ENV[0], ctx):
+                e.process()
         except Exception as ex:  # a valid constructed block must be processable
             ctx.violation(f"{kind}: processing a valid rule block raised {type(ex).__name__}", {"method": kind, "params": list(params), "inputs": list(vals)}, "no error", repr(ex))
             continue
@@ -375,11 +377,13 @@ def drive(ctx, fl, e, vals, acts, weights, instances=None, form="float", route="
 
 
 HELD = []
+ENV = [None]  # the environment the next activations run in (set per case by the workload)
 
 
 def run(ctx):
     fl = import_library()
     HELD[:] = [Held(ctx)]
+    ctx.excuse = lambda mechanism, observed, note: excusable(observed)
     maxn = ctx.scale(3, 5)
     ctx.rule = (
         f"exhaustive: rule blocks of 1..{maxn} rules, degrees over the alphabet {{0, 0.25, 0.5, 1}} (ties and zeros arise), every activation method "
@@ -429,7 +433,23 @@ def run(ctx):
                 e.output_variables[0].enabled = False
             acts = rnd.sample(all_methods(fl, n, (0.0, 0.125, 0.25, 0.3, 0.5, 1.0)), 12)
             vals = [rnd.choice([0.0, 0.125, 0.25, 0.5, 0.5, 1.0, rnd.randrange(0, 17) / 16, 1e-17, 1e-300, 5e-324, math.nan]) for _ in range(n)]
+            ENV[0] = ENVIRONMENTS[(i // 4) % len(ENVIRONMENTS)] if i % 4 == 1 else None
             drive(ctx, fl, e, vals, acts, weights, form=rnd.choice(FORMS), route=rnd.choice(ROUTES))
+            ENV[0] = None
+            if i % 5 == 2:
+                # the block as it arrives in a copy of its engine, used as it comes and fed other values than the original holds
+                try:
+                    dup = e.copy() if i % 10 == 2 else copy.deepcopy(e)
+                    for rule_o, rule_d in zip(e.rule_blocks[0].rules, dup.rule_blocks[0].rules):
+                        if id(rule_o) in REJECTED:
+                            REJECTED.add(id(rule_d))
+                            KEEP.append(rule_d)
+                    KEEP.append(dup)
+                    vals2 = [rnd.choice([0.0, 0.125, 0.25, 0.5, 1.0, rnd.randrange(0, 17) / 16]) for _ in range(n)]
+                    drive(ctx, fl, dup, vals2, rnd.sample(acts, 4), weights)
+                    ctx.hit("workload:block of a copied engine")
+                except Exception as ex:
+                    ctx.hit(f"inconclusive:copy of the constructed engine: {type(ex).__name__}")
             # the same block driven again while its rules are unloaded / reloaded / disabled in between
             for _ in range(3):
                 vals = [rnd.choice([0.0, 0.125, 0.25, 0.5, 0.5, 1.0, rnd.randrange(0, 17) / 16]) for _ in range(n)]
@@ -508,6 +528,7 @@ def run(ctx):
             ctx.require(f"batch:{m}")
     for m in ("Highest", "Lowest", "First", "Last"):
         ctx.require(f"piece:{m}:tie", f"piece:{m}:n>eligible", f"piece:{m}:n<eligible", f"piece:{m}:disabled-rule", f"piece:{m}:unloaded-rule")
+    ctx.require("workload:block of a copied engine", *[f"environment:{e}" for e in ENVIRONMENTS])
     ctx.require("workload:every positive degree is subnormal or next to it", "law:values handed out earlier are left alone")
     ctx.require("piece:Threshold:threshold-equals-a-degree", "piece:First:threshold-equals-a-degree", "event:activation instances reused", "piece:block without loaded rules", "event:a rule that took part in an activation is unloaded", "piece:NaN activation degree", "workload:rule objects shared by two blocks", "workload:block of more than 64 rules")
     for r in ROUTES:
